@@ -7,7 +7,7 @@ import (
 	"github.com/tonistiigi/fsutil/zz_verif/v"
 )
 
-func symStat(tag string, nlink int) *types.Stat {
+func vh_symStat(tag string, nlink int) *types.Stat {
 	return &types.Stat{
 		Mode:     v.U32(tag + ".mode"),
 		Uid:      v.U32(tag + ".uid"),
@@ -22,7 +22,7 @@ func symStat(tag string, nlink int) *types.Stat {
 
 // specIdentity is the identity of C02: type+mode, uid/gid, link target, device numbers and, for
 // non-directories, size and mtime.
-func specIdentity(a, b *types.Stat) bool {
+func vh_specIdentity(a, b *types.Stat) bool {
 	meta := v.And(a.Mode == b.Mode, a.Uid == b.Uid, a.Gid == b.Gid, a.Linkname == b.Linkname, a.Devmajor == b.Devmajor, a.Devminor == b.Devminor)
 	isDir := os.FileMode(a.Mode)&os.ModeDir != 0
 	return v.And(meta, v.Or(isDir, v.And(a.Size == b.Size, a.ModTime == b.ModTime)))
@@ -32,12 +32,12 @@ func specIdentity(a, b *types.Stat) bool {
 // holds exactly when the identity of C02 is equal; under DiffNone it never holds.
 func VH_C02_samefile() {
 	la, lb := v.Choose("la", 3), v.Choose("lb", 3)
-	a, b := symStat("a", la), symStat("b", lb)
+	a, b := vh_symStat("a", la), vh_symStat("b", lb)
 	f1, f2 := &currentPath{path: "x", stat: a}, &currentPath{path: "x", stat: b}
 	same, err := sameFile(f1, f2, DiffMetadata)
 	v.Observe("same", same)
 	v.Assert(err == nil, "sameFile(DiffMetadata) does not fail")
-	want := specIdentity(a, b)
+	want := vh_specIdentity(a, b)
 	if want {
 		v.Cover("identical")
 	} else {
